@@ -1,5 +1,5 @@
 """C14: quote kernel — every string up to N characters over the whole code-point domain."""
-from pysx.api import sym_str
+from pysx.api import sym_str, sym_tokens
 from pysx.harness import run_prop
 from ural import quote as Q
 from spec import c14 as S
@@ -16,8 +16,9 @@ for _k in UNQUOTERS:
     name_fn(UNQUOTERS[_k][0], "ural.quote:safely_unquote_" + _k)
 
 BOUNDS = {
-    "quick": "every str of length 0..4 (four safely_unquote_*), 0..3 (safely_quote), 0..5 (upper_quoted) over all Unicode scalar values (no surrogates)",
-    "thorough": "every str of length 0..6 (four safely_unquote_*), 0..5 (safely_quote), 0..7 (upper_quoted) over all Unicode scalar values (no surrogates)",
+    "quick": "every str of length 0..4 (four safely_unquote_*), 0..3 (safely_quote), 0..5 (upper_quoted) over all Unicode scalar values (no surrogates); "
+             "plus, for the unquoters, every string of the token shapes EE, EEc, cEE, eee (E = escape with two symbolic hex digits, e = escape of a byte >= 0x80, c = any code point)",
+    "thorough": "every str of length 0..6 (four safely_unquote_*), 0..5 (safely_quote), 0..7 (upper_quoted) over all Unicode scalar values (no surrogates); token shapes EE, EEc, cEE, EEE, eeee, eeec, ceee, EcE, eece",
 }
 STUBS = ["str.encode('utf-8') / bytes.decode('utf-8','replace'): forking UTF-8 codec model (values.utf8_*)",
          "urllib.parse.quote: per-UTF-8-byte keep/escape model (models.m_quote)",
@@ -30,6 +31,17 @@ ASSUMPTIONS = ["strings contain no lone surrogates", "strings longer than the st
 def unquoter(st, which, n):
     f, delims = UNQUOTERS[which]
     s = sym_str(st, "s", n)
+    run_prop(st, "%s/same_bytes" % which, S.unquote_same_bytes, f, s)
+    run_prop(st, "%s/idempotent" % which, S.unquote_idempotent, f, s)
+    run_prop(st, "%s/no_raw_space" % which, S.unquote_no_raw_space, f, s)
+    run_prop(st, "%s/no_new_control" % which, S.unquote_no_new_control, f, s)
+    if delims:
+        run_prop(st, "%s/keeps_delimiters" % which, S.unquote_keeps_delimiters, f, s, delims)
+
+
+def unquoter_tokens(st, which, shape):
+    f, delims = UNQUOTERS[which]
+    s = sym_tokens(st, "t", shape)
     run_prop(st, "%s/same_bytes" % which, S.unquote_same_bytes, f, s)
     run_prop(st, "%s/idempotent" % which, S.unquote_idempotent, f, s)
     run_prop(st, "%s/no_raw_space" % which, S.unquote_no_raw_space, f, s)
@@ -61,6 +73,11 @@ def items(tier):
             if n >= 4:
                 it["defer_depth"] = 8
             out.append(it)
+    shapes = ["EE", "EEc", "cEE", "eee"] if tier == "quick" else ["EE", "EEc", "cEE", "EEE", "eeee", "eeec", "ceee", "EcE", "eece"]
+    for which in UNQUOTERS:
+        for sh in shapes:
+            out.append({"fn": "unquoter_tokens", "params": {"which": which, "shape": sh}, "name": "unquote_%s tokens=%s" % (which, sh),
+                        "weight": 40 ** len(sh), "defer_depth": 8})
     for n in range(0, nq + 1):
         it = {"fn": "quoter", "params": {"n": n}, "name": "safely_quote n=%d" % n, "weight": 8 ** n}
         if n >= 3:
